@@ -239,6 +239,10 @@ def cases(tier):
                         continue
                     yield {"labels": ["rewrite=enum-null", f"type={typ}", f"n={len(values)}", f"pos={pos}", f"siblings={sname}"] + (["literal_enums"] if lit else []),
                            "payload": {"mode": "enum-null", "type": typ, "values": values, "pos": pos, "literal_enums": lit, "siblings": sib, "sname": sname}}
+                    if sname == "described":
+                        # ... under the option that changes where descriptions are written
+                        yield {"labels": ["rewrite=enum-null", f"type={typ}", f"n={len(values)}", f"pos={pos}", f"siblings={sname}", "docstrings_on_attributes"] + (["literal_enums"] if lit else []),
+                               "payload": {"mode": "enum-null", "type": typ, "values": values, "pos": pos, "literal_enums": lit, "siblings": sib, "sname": sname, "doa": True}}
     # single-element wrappers
     for target in WRAP_TARGETS:
         for pos in POS + SHARED_POS:
@@ -454,10 +458,10 @@ def run_case(p):
             variants[n] = gen.generate(d1)
         key = f"nullable2/{p['kind']}/{'+'.join(p['pos'])}"
     elif mode == "enum-null":
-        opts = {"literal_enums": p["literal_enums"]}
+        opts = {"literal_enums": p["literal_enums"], **({"docstrings_on_attributes": True} if p.get("doa") else {})}
         for n, sch in enum_null_forms(p["values"], p["type"], p.get("siblings")).items():
             variants[n] = gen.generate(holder(p["pos"], sch, {}), **opts)
-        key = f"enum-null/{p['type']}{len(p['values'])}/{p['pos']}" + ("/literal" if p["literal_enums"] else "") + (f"/{p['sname']}" if p.get("sname") else "")
+        key = f"enum-null/{p['type']}{len(p['values'])}/{p['pos']}" + ("/literal" if p["literal_enums"] else "") + (f"/{p['sname']}" if p.get("sname") else "") + ("/doa" if p.get("doa") else "")
     elif mode == "wrapper":
         for n, sch in wrapper_forms(p["target"]).items():
             comps = {p["target"]: copy.deepcopy(WRAP_TARGETS[p["target"]])}
